@@ -10,7 +10,7 @@ def authOf (s : State) (id : Nat) : Option Auth := (s.devices.get id).map (·.au
 
 /-! ### Helper lemmas -/
 
-theorem integrateDev_auth (off : Nat) (d d' : Dev) (r : Report) (b : Bool)
+theorem c06h_integrateDev_auth (off : Nat) (d d' : Dev) (r : Report) (b : Bool)
     (h : integrateDev off d r = some (d', b)) : d'.auth = d.auth := by
   unfold integrateDev at h
   split at h
@@ -25,7 +25,7 @@ theorem integrateDev_auth (off : Nat) (d d' : Dev) (r : Report) (b : Bool)
           · simp at h; rw [← h.1]
           · simp at h; rw [← h.1]
 
-theorem authOf_set_same_auth (s : State) (m : FMap Nat Dev) (k id : Nat) (d d' : Dev)
+theorem c06h_authOf_set_same_auth (s : State) (m : FMap Nat Dev) (k id : Nat) (d d' : Dev)
     (hd : s.devices.get k = some d) (ha : d'.auth = d.auth) (hm : m = s.devices.set k d') :
     (m.get id).map (·.auth) = authOf s id := by
   subst hm
@@ -34,7 +34,7 @@ theorem authOf_set_same_auth (s : State) (m : FMap Nat Dev) (k id : Nat) (d d' :
   · subst hk; rw [FMap.get_set_same, hd]; simp [ha]
   · rw [FMap.get_set_ne _ _ _ _ hk]
 
-theorem integrate_frame (cfg : Cfg) (s s' : State) (r : Report) (b : Bool)
+theorem c06h_integrate_frame (cfg : Cfg) (s s' : State) (r : Report) (b : Bool)
     (h : integrate cfg s r = some (s', b)) (id : Nat) :
     authOf s' id = authOf s id ∧ s'.bans = s.bans := by
   unfold integrate at h
@@ -47,9 +47,9 @@ theorem integrate_frame (cfg : Cfg) (s s' : State) (r : Report) (b : Bool)
     · rename_i d' hi
       simp at h
       rw [← h.1]
-      exact ⟨authOf_set_same_auth s _ r.id id d d' hd (integrateDev_auth _ _ _ _ _ hi) rfl, rfl⟩
+      exact ⟨c06h_authOf_set_same_auth s _ r.id id d d' hd (c06h_integrateDev_auth _ _ _ _ _ hi) rfl, rfl⟩
 
-theorem dgram_frame (cfg : Cfg) (V : Verify) (s : State) (now : Nat) (d : Bytes) (id : Nat) :
+theorem c06h_dgram_frame (cfg : Cfg) (V : Verify) (s : State) (now : Nat) (d : Bytes) (id : Nat) :
     authOf (dgram cfg V s now d).1 id = authOf s id ∧ (dgram cfg V s now d).1.bans = s.bans := by
   unfold dgram
   split
@@ -63,9 +63,9 @@ theorem dgram_frame (cfg : Cfg) (V : Verify) (s : State) (now : Nat) (d : Bytes)
         · split
           · exact ⟨rfl, rfl⟩
           · rename_i hi
-            exact integrate_frame cfg _ _ _ _ hi id
+            exact c06h_integrate_frame cfg _ _ _ _ hi id
 
-theorem rotate_frame (sgn : Bytes → Bytes) (s : State) (id : Nat) :
+theorem c06h_rotate_frame (sgn : Bytes → Bytes) (s : State) (id : Nat) :
     authOf (rotate sgn s).1 id = authOf s id ∧ (rotate sgn s).1.bans = s.bans := by
   unfold rotate
   split
@@ -75,14 +75,14 @@ theorem rotate_frame (sgn : Bytes → Bytes) (s : State) (id : Nat) :
     rw [FMap.get_map_val s.devices shiftDev id]
     cases s.devices.get id <;> simp [shiftDev]
 
-theorem impactWrite_frame (s : State) (k ts rate id : Nat) :
+theorem c06h_impactWrite_frame (s : State) (k ts rate id : Nat) :
     authOf (impactWrite s k ts rate) id = authOf s id ∧ (impactWrite s k ts rate).bans = s.bans := by
   unfold impactWrite
   split
   · exact ⟨rfl, rfl⟩
   · rename_i d hd
     split
-    · exact ⟨authOf_set_same_auth s _ k id d { d with impact := d.impact.set (ts - s.off) rate } hd rfl rfl, rfl⟩
+    · exact ⟨c06h_authOf_set_same_auth s _ k id d { d with impact := d.impact.set (ts - s.off) rate } hd rfl rfl, rfl⟩
     · exact ⟨rfl, rfl⟩
 
 /-- The set of authorized devices changes only through `authorize` (and is
@@ -91,18 +91,18 @@ theorem c06_only_authorize (cfg : Cfg) (V : Verify) (sgn : Bytes → Bytes) (s :
     (hop : ∀ a, op ≠ .authorize a) (hre : ∀ f n, op ≠ .restart f n) (id : Nat) :
     authOf (step cfg V sgn s op).1 id = authOf s id ∧ (step cfg V sgn s op).1.bans = s.bans := by
   cases op with
-  | dgram now d => exact dgram_frame cfg V s now d id
+  | dgram now d => exact c06h_dgram_frame cfg V s now d id
   | register k sig =>
     simp only [step, register]
     split
     · exact ⟨rfl, rfl⟩
     · split <;> exact ⟨rfl, rfl⟩
   | authorize a => exact absurd rfl (hop a)
-  | rotate => exact rotate_frame sgn s id
+  | rotate => exact c06h_rotate_frame sgn s id
   | tick now =>
     simp only [step, tick]
     split
-    · exact rotate_frame sgn s id
+    · exact c06h_rotate_frame sgn s id
     · exact ⟨rfl, rfl⟩
   | restart f n => exact absurd rfl (hre f n)
   | stats tso => exact ⟨rfl, rfl⟩
@@ -123,9 +123,9 @@ theorem c06_only_authorize (cfg : Cfg) (V : Verify) (sgn : Bytes → Bytes) (s :
     split
     · exact ⟨rfl, rfl⟩
     · split <;> exact ⟨rfl, rfl⟩
-  | impact k ts rate => exact impactWrite_frame s k ts rate id
+  | impact k ts rate => exact c06h_impactWrite_frame s k ts rate id
 
-theorem authorize_bans_grow (cfg : Cfg) (V : Verify) (s : State) (a : Auth) (id : Nat)
+theorem c06h_authorize_bans_grow (cfg : Cfg) (V : Verify) (s : State) (a : Auth) (id : Nat)
     (h : id ∈ s.bans) : id ∈ (authorize cfg V s a).1.bans := by
   unfold authorize
   split
@@ -143,12 +143,12 @@ theorem authorize_bans_grow (cfg : Cfg) (V : Verify) (s : State) (a : Auth) (id 
           · exact h
           · exact h
 
-theorem step_bans_grow (cfg : Cfg) (V : Verify) (sgn : Bytes → Bytes) (s : State) (op : Op) (hinv : Inv s)
+theorem c06h_step_bans_grow (cfg : Cfg) (V : Verify) (sgn : Bytes → Bytes) (s : State) (op : Op) (hinv : Inv s)
     (hre : ∀ f n, op ≠ .restart f n) (id : Nat) (h : id ∈ s.bans) :
     id ∈ (step cfg V sgn s op).1.bans := by
   by_cases ha : ∃ a, op = .authorize a
   · obtain ⟨a, rfl⟩ := ha
-    exact authorize_bans_grow cfg V s a id h
+    exact c06h_authorize_bans_grow cfg V s a id h
   · have := (c06_only_authorize cfg V sgn s op hinv (fun a e => ha ⟨a, e⟩) hre id).2
     rw [this]; exact h
 
@@ -225,7 +225,7 @@ theorem c06_ban_permanent (cfg : Cfg) (V : Verify) (sgn : Bytes → Bytes) (s : 
     | cons op ops ih =>
       have hop : OpWF op := hops op (by simp)
       have hinv' := inv_step cfg V sgn s op hinv hop
-      have hb' := step_bans_grow cfg V sgn s op hinv (hre op (by simp)) id h
+      have hb' := c06h_step_bans_grow cfg V sgn s op hinv (hre op (by simp)) id h
       have := ih (step cfg V sgn s op).1 hinv' (fun o ho => hops o (by simp [ho]))
         (fun o ho => hre o (by simp [ho])) hb'
       simpa [run] using this
